@@ -4,6 +4,7 @@ C02 — Every update is applied exactly once; nothing lost, nothing doubled.
 import DefraModel.Proofs.CrdtFolds
 import DefraModel.Proofs.CrdtWalk
 import DefraModel.Proofs.CrdtIsMerged
+import DefraModel.Proofs.CrdtMergeDocRefine
 namespace Defra.Props.C02
 open Defra Defra.Crdt
 
@@ -99,6 +100,44 @@ def diamondStore : Blocks :=
 
 example : isMerged diamondStore [4] 1 1 = true ∧ isMerged diamondStore [2] 3 2 = false ∧
     ((loadComposites diamondStore [2] 5 4 ([], [])).1.map (·.id)) = [3, 4] := by decide
+
+/-- **One delivered commit, end to end.** `mergeDoc` — the model of `executeMerge` that `drv crdt` runs in lock-step
+    with the implementation — on a store that passes `wfCheck` (evaluated by `drv crdt` on every store the
+    implementation produced) and a document whose heads pass `headsCheck`: the blocks applied (`news`) are exactly `c`
+    and those ancestors of `c` that were not merged before, each once, parents first; the delete marker is the fold of
+    exactly these; afterwards the merged set (heads and their ancestors) is the old one together with `c` and its
+    ancestors; the heads are again distinct stored composites. Nothing lost, nothing doubled, for every store, head set
+    and delivered commit. -/
+theorem merge_applies_exactly_the_unmerged_ancestors_once (cx : Ctx) (hwf : wfCheck cx.blocks = true)
+    (hknown : ∀ l, (cx.blocks.get? l).isSome = true → cx.known l = true)
+    (r : Replica) (c : Block) (hc : cx.blocks.get? c.id = some c) (hck : c.kind = .comp)
+    (hh : headsCheck cx.blocks (r.doc c.doc).heads = true) :
+    ∃ news : List Block,
+      (news.map (·.id)).Nodup ∧
+      news.Pairwise (fun x y => x.height ≤ y.height) ∧
+      (∀ b, b ∈ news ↔ (cx.blocks.get? b.id = some b ∧ Anc cx.blocks c.id b.id ∧
+        ¬ Reach cx.blocks (r.doc c.doc).heads b.id)) ∧
+      ((mergeDoc cx r c).doc c.doc).vals.marker =
+        news.foldl (fun m b => markerOf b m) (r.doc c.doc).vals.marker ∧
+      (∀ t, Reach cx.blocks ((mergeDoc cx r c).doc c.doc).heads t ↔
+        (Reach cx.blocks (r.doc c.doc).heads t ∨ (Anc cx.blocks c.id t ∧ ∃ b, cx.blocks.get? t = some b))) ∧
+      HInv cx.blocks ((mergeDoc cx r c).doc c.doc).heads := by
+  have swf := wfCheck_sound cx.blocks hwf
+  have hi : HInv cx.blocks (proj r c.doc).heads := headsCheck_sound cx.blocks _ hh
+  obtain ⟨news, h1, h2, h3, h4, h5, h6⟩ :=
+    mergeComp_exact cx.blocks swf.base (proj r c.doc) hi c.id ⟨c, hc, hck⟩
+  have href := mergeDoc_refines cx swf hknown r c hc hck
+  have hheads : ((mergeDoc cx r c).doc c.doc).heads = (mergeComp cx.blocks (proj r c.doc) c.id).heads :=
+    congrArg CompSt.heads href
+  have hmark : ((mergeDoc cx r c).doc c.doc).vals.marker = (mergeComp cx.blocks (proj r c.doc) c.id).marker :=
+    congrArg CompSt.marker href
+  refine ⟨news, h1, h2, h3, ?_, ?_, ?_⟩
+  · rw [hmark]; exact h6
+  · intro t; rw [hheads]; exact h5 t
+  · rw [hheads]; exact h4
+
+/-- the hypotheses are met by a concrete store, and the walk applies `3, 4` on top of heads `[2]` -/
+example : wfCheck diamondStore = true ∧ headsCheck diamondStore [2] = true := by decide
 
 /-! non-vacuity -/
 def inc1 : Block := ⟨2, .field "points", "d", 1, [], [], .ctr 1⟩
